@@ -21,10 +21,10 @@ import (
 // its own, so anything gopar carried from one call to the next *inside the
 // process* (a pooled buffer, a memoised table, a package-level scratch slice)
 // would be invisible to it. Here every ordered pair and triple of calls from
-// a menu of 50 operations - each on its own private directory - runs back
+// a menu of 54 operations - each on its own private directory - runs back
 // to back in one goroutine with garbage collection off, and the observation
 // of the LAST call (error text, result, every write, final directory) must
-// equal the observation of the same call made first in a fresh state. No
+// equal the observation of the same call made alone in a fresh PROCESS ("vcheck aux interfere-base"). No
 // hand-written expected value: the oracle is the call itself, alone.
 
 type interfereCase struct {
@@ -277,17 +277,24 @@ func ifOps() []ifOp {
 			fs.ResetLog()
 			var err error
 			pi := core.Catch(func() {
+				blocks := 3
+				switch variant {
+				case 5:
+					blocks = 5 // a last recovery file that is not full
+				case 6:
+					blocks = 7
+				}
 				if format == "p2" {
-					err = par2.VerifCreate(fs, "/c/t.par2", paths, par2.CreateOptions{SliceByteCount: 8, NumParityShards: 3, NumGoroutines: 2})
+					err = par2.VerifCreate(fs, "/c/t.par2", paths, par2.CreateOptions{SliceByteCount: 8, NumParityShards: blocks, NumGoroutines: 2})
 				} else {
-					err = par1.VerifCreate(fs, "/c/t.par", paths, par1.CreateOptions{NumParityFiles: 2})
+					err = par1.VerifCreate(fs, "/c/t.par", paths, par1.CreateOptions{NumParityFiles: blocks - 1})
 				}
 			})
 			return ifObs(fs, nil, err, pi)
 		}}
 	}
 	for _, f := range []string{"p2", "p1"} {
-		for v := 0; v <= 4; v++ {
+		for v := 0; v <= 6; v++ {
 			ops = append(ops, mkCreate(f, v))
 		}
 	}
@@ -327,10 +334,17 @@ func interfereRun(c *interfereCase, r *core.Rec) {
 	bkey := fmt.Sprintf("%d/%d", last, r.Seed)
 	base, ok := ifBase[bkey]
 	if !ok {
-		// the call alone; run twice to make sure the observation itself is deterministic
-		base = ops[last].run(r.Seed)
-		if again := ops[last].run(r.Seed); again != base {
-			r.Violatef("interference:call-not-deterministic", "%s: two runs in a row differ\n%s\n%s", ops[last].name, base, again)
+		// the call alone, in a FRESH process (this worker has a past of its own: a reference made here would share
+		// whatever the process has accumulated with the runs it is compared to); twice, to make sure the observation
+		// itself is deterministic
+		var err error
+		base, err = core.FreshProcess("interfere-base", fmt.Sprint(last), fmt.Sprint(r.Seed))
+		if err != nil {
+			r.Violatef("harness:fresh-process-failed", "%v", err)
+			return
+		}
+		if again, _ := core.FreshProcess("interfere-base", fmt.Sprint(last), fmt.Sprint(r.Seed)); again != base {
+			r.Violatef("interference:call-not-deterministic", "%s: two fresh processes differ\n%s\n%s", ops[last].name, base, again)
 			return
 		}
 		ifBase[bkey] = base
@@ -373,4 +387,22 @@ func firstDiff(a, b string) string {
 		hi = len(a)
 	}
 	return "..." + a[lo:hi] + "..."
+}
+
+func init() {
+	core.Aux["interfere-base"] = func(args []string) int {
+		if len(args) != 2 {
+			return 2
+		}
+		var op int
+		var seed int64
+		fmt.Sscan(args[0], &op)
+		fmt.Sscan(args[1], &seed)
+		ops := ifOps()
+		if op < 0 || op >= len(ops) {
+			return 2
+		}
+		fmt.Print(ops[op].run(seed))
+		return 0
+	}
 }
